@@ -48,6 +48,17 @@ def main():
     if case.get("pre_gc_debug"):
         # interpreter-global state that is already set when the run starts (an embedding harness, an outer run)
         gc.set_debug(case["pre_gc_debug"])
+    if case.get("pre_tb"):
+        # traceback functions installed by the embedding program after the runner's modules were imported
+        _orig_fe, _orig_pe = traceback.format_exception, traceback.print_exception
+
+        def host_format_exception(*a, **kw):
+            return _orig_fe(*a, **kw)
+
+        def host_print_exception(*a, **kw):
+            return _orig_pe(*a, **kw)
+        traceback.format_exception = host_format_exception
+        traceback.print_exception = host_print_exception
     if case.get("pre_trace"):
         def tracer(frame, event, arg):
             return None
